@@ -297,8 +297,14 @@ func agentsDriver(args []string) error {
 			return nil
 		}
 		flip := func(d hashing.Digest) hashing.Digest { n := append(hashing.Digest{}, d...); n[len(n)-1] ^= 1; return n }
+		// batches start anywhere in the log, the current (last) version included; in mode "cur" every
+		// batch starts at the current version (the proof's current version = the audited snapshot's)
+		mode := "rand"
 		pick := func() (int, int) {
-			lo := rng.Intn(nEvents - 1)
+			lo := rng.Intn(nEvents)
+			if mode == "cur" || rng.Intn(5) == 0 {
+				lo = nEvents - 1
+			}
 			hi := lo + rng.Intn(min(4, nEvents-lo))
 			return lo, hi
 		}
@@ -308,7 +314,11 @@ func agentsDriver(args []string) error {
 			if thorough {
 				reps = 6
 			}
-			for r := 0; r < reps; r++ {
+			for r := 0; r <= reps; r++ {
+				mode = "rand"
+				if r == reps {
+					mode = "cur" // one pass with every batch starting at the current version
+				}
 				lo, hi := pick()
 				deliver("none", lo, hi, nil)
 				lo, hi = pick()
@@ -346,7 +356,11 @@ func agentsDriver(args []string) error {
 			if thorough {
 				reps = 6
 			}
-			for r := 0; r < reps; r++ {
+			for r := 0; r <= reps; r++ {
+				mode = "rand"
+				if r == reps {
+					mode = "cur" // one pass with every batch starting at the current version
+				}
 				lo, hi := pick()
 				deliver("none", lo, hi, nil)
 				deliver("none", lo, lo, func(b *protocol.BatchSnapshots) { b.Snapshots[0].Signature = []byte(fmt.Sprintf("single-%d", r)) })
@@ -373,6 +387,7 @@ func agentsDriver(args []string) error {
 		if err != nil {
 			return err
 		}
+		mode = "rand"
 		// ---------------- publisher: redelivery patterns
 		err = run("publisher", cmd.VerifPublisherFactory(), func(deliver func(string, int, int, func(*protocol.BatchSnapshots))) {
 			deliver("none", 0, 2, nil)
